@@ -138,4 +138,59 @@ example :
     (visitsN (refCfg {}) [] 0 root).flatMap (written [116] (.typeIs 'f') (.pathOut [] [0])) =
       [116, 47, 97, 0, 116, 47, 98, 47, 99, 0] := by decide
 
+open FuModel.Xargs
+
+/-- the entries that satisfy the test, in visit order -/
+def matched (c : Config) (t : Prim) (start : Bytes) (n : Node Attr) : List Bytes :=
+  ((visitsN (refCfg c) [] 0 n).filter fun v => (sem start v t es0).1).map fun v => pathOf start v.ent.rpath
+
+theorem written_flat (t : Prim) (start : Bytes) (vs : List (Visit Attr))
+    (hv : ∀ v ∈ vs, (sem start v t es0).1 = true → FuModel.Utf8.validUtf8 (pathOf start v.ent.rpath) = true) :
+    vs.flatMap (written start t (.pathOut [] [0])) =
+      ((vs.filter fun v => (sem start v t es0).1).map fun v => pathOf start v.ent.rpath).flatMap (· ++ [0]) := by
+  induction vs with
+  | nil => rfl
+  | cons v vs ih =>
+    have ih' := ih (fun x hx => hv x (by simp [hx]))
+    simp only [List.flatMap_cons, List.filter_cons]
+    cases hb : (sem start v t es0).1
+    · simp [written, hb, ih']
+    · have hl : FuModel.Utf8.lossy (pathOf start v.ent.rpath) = pathOf start v.ent.rpath := by
+        simpa [FuModel.Utf8.validUtf8] using hv v (by simp) hb
+      simp [written, hb, outOf, hl, ih']
+
+/-- **The pipeline `find START TEST -print0 | xargs -0 CMD`.**  For every tree, follow mode, depth
+    range and traversal order, every test that only looks at the entry, every xargs configuration
+    (limits, command) and every behaviour of the commands: if the paths of the matching entries are
+    valid UTF-8 (the property's scope), then — whenever xargs completes — the arguments appended to
+    its commands, concatenated, are exactly the paths of the in-range reachable entries that satisfy
+    the test, in visit order: each delivered to a command once, unmodified, nothing else. -/
+theorem C07_pipeline (c : Config) (t : Prim) (ht : isTestP t = true) (start : Bytes) (root : Node Attr)
+    (hH : (refCfg c).depthFirst = true → ¬ HRootLink (refCfg c) (if c.sorted then sortNode root else root))
+    (hv : ∀ p ∈ matched c t start (if c.sorted then sortNode root else root),
+      FuModel.Utf8.validUtf8 p = true ∧ p ≠ [] ∧ (0 : UInt8) ∉ p)
+    (cfg : Xargs.Config) (init : LState) (script : List Outcome) :
+    let out := (processDir c (.and [.prim t, .prim (.pathOut [] [0])]) start (some root) {}).gs.out
+    let args := (bdAll 0 out).map fun b => (⟨b, .hard⟩ : Xargs.Arg)
+    let run := processInput cfg init false ⟨init, []⟩ false false [] script args
+    (run.status = 0 ∨ run.status = 123) →
+      run.batches.flatten.map (·.bytes) = matched c t start (if c.sorted then sortNode root else root) := by
+  intro out args run hs
+  have hw := (C07_whole_walk c t ht [] [0] start root {} hH).1
+  have hvs : ∀ v ∈ visitsN (refCfg c) [] 0 (if c.sorted then sortNode root else root),
+      (sem start v t es0).1 = true → FuModel.Utf8.validUtf8 (pathOf start v.ent.rpath) = true := by
+    intro v hv' hb
+    exact (hv _ (by
+      simp only [matched, List.mem_map, List.mem_filter]
+      exact ⟨v, ⟨hv', hb⟩, rfl⟩)).1
+  have hout : out = (matched c t start (if c.sorted then sortNode root else root)).flatMap (· ++ [0]) := by
+    show (processDir c (.and [.prim t, .prim (.pathOut [] [0])]) start (some root) {}).gs.out = _
+    rw [hw, written_flat t start _ hvs]
+    simp [matched]
+  have := C07_delivered_once cfg init script (matched c t start (if c.sorted then sortNode root else root))
+    (fun p hp => (hv p hp).2)
+  simp only at this
+  simp only [run, args] at hs ⊢
+  rw [hout] at hs ⊢
+  exact this hs
 end FuModel.Find.Run
